@@ -55,13 +55,21 @@ struct RunState {
 	DsGuard G[MAXD];
 	bool in_concurrent = false;
 	std::string plan_json;
+	bool pfault_fired = false;      // an injected page-protection refusal has fired in this run
+	bool vm_tainted[MAXV] = {false}; // a hash call on this VM ended in an exception (injected allocation failure): its later results are not constrained
+	uint64_t sig0 = 0;              // signal dispositions at the start of the run
 };
 static RunState *g_rs = nullptr;
+static __thread seam::OpCtx *t_cur_ctx = nullptr; // context of the op in flight on this thread
 static uint64_t g_run_index = 0;
 
 static void viol(const std::string &cls, const std::string &sig, const std::string &detail, int op) {
 	if (!g_rs) return;
 	Violation v; v.cls = cls; v.sig = sig; v.detail = detail; v.op_index = op;
+	// After an injected mprotect refusal the unchanged library may legitimately crash or fail (it ignores the result of
+	// mprotect; no listed property covers that). Only what the properties state for every moment - no W+X page, MXCSR
+	// restored by a single-call hash that returns - is still judged; everything else becomes a note.
+	if ((g_rs->pfault_fired || (t_cur_ctx && t_cur_ctx->pfired)) && cls != "MXCSR_CHANGED" && cls != "WX" && cls != "WX_KERNEL") v.cls = "AFTER_MPROTECT_FAULT_" + cls;
 	g_rs->rep->violations.push_back(v);
 	// TSan's choice of which racing pair to report depends on shadow-cell state left by earlier runs of the
 	// same process, so race reports stay out of the run fingerprint (they are an oracle output, not an event)
@@ -100,6 +108,8 @@ static void crash_reporter(const char *cls, const char *sig) {
 	int op = rs ? rs->cur_op[t <= MAXTASK ? t : 0] : -1;
 	const char *kn = (rs && op >= 0 && op < (int)rs->plan->ops.size()) ? kind_name(rs->plan->ops[op].kind) : "none";
 	if (model::g_in_model) { kn = "model_computation"; op = -1; }
+	std::string cls2 = cls;
+	if (rs && (rs->pfault_fired || seam::stats().mprotect_refused)) cls2 = "AFTER_MPROTECT_FAULT_" + cls2;
 	std::string vmf;
 	if (rs && op >= 0) {
 		const Op &o = rs->plan->ops[op];
@@ -110,7 +120,7 @@ static void crash_reporter(const char *cls, const char *sig) {
 	if (rs) for (size_t i = 0; i < rs->rep->recorded.size(); ++i) { char b[48]; snprintf(b, sizeof b, "%s[%llu,%d]", i ? "," : "", (unsigned long long)rs->rep->recorded[i].step, rs->rep->recorded[i].task); sched += b; }
 	sched += "]";
 	snprintf(head, sizeof head, "{\"type\":\"run\",\"run\":%llu,\"crashed\":true,\"violations\":[{\"cls\":\"%s\",\"sig\":\"op=%s%s %s\",\"detail\":\"\",\"op\":%d}],\"recorded\":",
-	         (unsigned long long)g_run_index, cls, kn, vmf.c_str(), rt::json_escape(sig).c_str(), op);
+	         (unsigned long long)g_run_index, cls2.c_str(), kn, vmf.c_str(), rt::json_escape(sig).c_str(), op);
 	std::string line = head;
 	line += sched;
 	line += ",\"plan\":";
@@ -302,8 +312,9 @@ static void exec_op(RunState &rs, int i) {
 	rt::sched_yield_point(rt::SITE_OP_BEGIN);
 
 	seam::OpCtx ctx;
-	ctx.task = task; ctx.op_index = i; ctx.op_name = kind_name(o.kind); ctx.heap_policy = o.heap; ctx.faults = o.fault;
+	ctx.task = task; ctx.op_index = i; ctx.op_name = kind_name(o.kind); ctx.heap_policy = o.heap; ctx.faults = o.fault; ctx.pfaults = o.pfault;
 	bool skipped = false;
+	t_cur_ctx = &ctx;
 	auto need = [&](bool ok) { if (!ok) skipped = true; return ok; };
 	std::string fl;
 
@@ -353,7 +364,7 @@ static void exec_op(RunState &rs, int i) {
 		}
 		if (o.kind == ALLOC_CACHE) rs.C[o.c] = (randomx_cache *)obj;
 		else if (o.kind == ALLOC_DATASET) rs.D[o.d] = (randomx_dataset *)obj;
-		else { rs.V[o.v] = (randomx_vm *)obj; rs.Vflags[o.v] = o.flags; }
+		else { rs.V[o.v] = (randomx_vm *)obj; rs.Vflags[o.v] = o.flags; rs.vm_tainted[o.v] = false; }
 		if (obj && o.kind == ALLOC_CACHE && seam::addr_was_reused(randomx_get_cache_memory((randomx_cache *)obj)) && !seam::addr_was_reused(obj)) rs.rep->probes["address_reuse_big_same_small_diff"]++;
 		break;
 	}
@@ -443,19 +454,35 @@ static void exec_op(RunState &rs, int i) {
 		uint32_t env = o.env >= 0 ? (uint32_t)o.env : thread_csr;
 		memset(res.digest, 0xEE, 32);
 		uint8_t *out = res.digest;
+		bool threw = false;
 		seam::lib_enter(&ctx);
 		seam::set_mxcsr(env);
-		if (o.kind == HASH) randomx_calculate_hash(vm, in, inlen, out);
-		else if (o.kind == FIRST) randomx_calculate_hash_first(vm, in, inlen);
-		else if (o.kind == NEXT) randomx_calculate_hash_next(vm, in, inlen, out);
-		else randomx_calculate_hash_last(vm, out);
+		if (o.fault.empty()) {
+			if (o.kind == HASH) randomx_calculate_hash(vm, in, inlen, out);
+			else if (o.kind == FIRST) randomx_calculate_hash_first(vm, in, inlen);
+			else if (o.kind == NEXT) randomx_calculate_hash_next(vm, in, inlen, out);
+			else randomx_calculate_hash_last(vm, out);
+		} else {
+			// an allocation request inside the call fails: the library lets the exception out of the C API; a caller
+			// may catch it and go on using the VM. What the VM returns afterwards is not constrained by any property
+			// (the VM is marked), but it must not crash, leak or leave W+X pages behind.
+			try {
+				if (o.kind == HASH) randomx_calculate_hash(vm, in, inlen, out);
+				else if (o.kind == FIRST) randomx_calculate_hash_first(vm, in, inlen);
+				else if (o.kind == NEXT) randomx_calculate_hash_next(vm, in, inlen, out);
+				else randomx_calculate_hash_last(vm, out);
+			} catch (const std::exception &) { threw = true; }
+		}
 		uint32_t after = seam::get_mxcsr();
 		seam::set_mxcsr(0x1F80);
 		seam::lib_exit();
+		if (threw) { rs.vm_tainted[o.v] = true; rs.rep->probes["hash_call_threw"]++; }
+		if (ctx.fired) rs.rep->probes["alloc_fault_in_hash_fired"]++;
 		thread_csr = (after & 0xFFC0u) | 0x1F80u; // keep control bits (rounding, FTZ, DAZ) with all exceptions masked, drop sticky flags
 		res.executed = true; res.mxcsr_before = env; res.mxcsr_after = after; res.requests = ctx.requests;
 		std::string vmf = flagstr((rs.Vflags[o.v] & ~128u));
-		if (o.kind == HASH && after != env) {
+		const bool tainted = rs.vm_tainted[o.v];
+		if (o.kind == HASH && after != env && !threw) {
 			uint32_t diff = after ^ env;
 			std::string bits;
 			if (diff & 0x6000) bits += "rounding,"; if (diff & 0x8000) bits += "ftz,"; if (diff & 0x0040) bits += "daz,"; if (diff & 0x1F80) bits += "masks,"; if (diff & 0x003F) bits += "flags,";
@@ -465,7 +492,7 @@ static void exec_op(RunState &rs, int i) {
 		}
 		if (o.kind != FIRST) {
 			res.has_digest = true;
-			if (e.has_digest && memcmp(res.digest, rs.expd[i].b, 32) != 0) {
+			if (e.has_digest && !tainted && memcmp(res.digest, rs.expd[i].b, 32) != 0) {
 				char d[200]; snprintf(d, sizeof d, "got=%s want=%s env=0x%04x", rt::hex(res.digest, 8).c_str(), rt::hex(rs.expd[i].b, 8).c_str(), env);
 				viol("DIGEST_MISMATCH", std::string(kind_name(o.kind)) + " vm=" + vmf + (e.v2 ? " v2" : " v1") + (o.env >= 0 && env != 0x1F80 ? " env=nondefault" : ""), d, i);
 			}
@@ -477,9 +504,12 @@ static void exec_op(RunState &rs, int i) {
 		uint8_t got[32], want[32];
 		const std::vector<uint8_t> &in = rs.inputb[o.input], &h = rs.keyb[o.key];
 		static const uint8_t empty = 0;
+		bool threw = false;
+		memset(got, 0xEE, 32);
 		seam::lib_enter(&ctx);
-		randomx_calculate_commitment(in.empty() ? &empty : in.data(), in.size(), h.data(), got);
+		try { randomx_calculate_commitment(in.empty() ? &empty : in.data(), in.size(), h.data(), got); } catch (const std::exception &) { threw = true; }
 		seam::lib_exit();
+		if (threw) { viol("COMMITMENT_THREW", "randomx_calculate_commitment did not deliver a commitment (exception out of the C API after an allocation failure)", "len=" + std::to_string(in.size()), i); res.executed = true; break; }
 		std::vector<uint8_t> cat(in); cat.insert(cat.end(), h.begin(), h.end());
 		model::blake2b_ref(want, 32, cat.data(), cat.size(), nullptr, 0);
 		res.executed = true; memcpy(res.digest, got, 32); res.has_digest = true;
@@ -514,7 +544,15 @@ static void exec_op(RunState &rs, int i) {
 	case MAPS_AUDIT: seam::maps_audit(i); res.executed = true; break;
 	default: break;
 	}
+	if (ctx.pfired) { rs.pfault_fired = true; rs.rep->probes["mprotect_refused"] += (uint64_t)ctx.pfired; }
+	if (ctx.sigactions) {
+		rs.rep->probes["sigaction_calls"] += (uint64_t)ctx.sigactions;
+		// a call that runs alone must leave the process's signal dispositions as it found them; if this library does
+		// not (sequentially), there is nothing to compare a concurrent phase with
+		if (!rs.in_concurrent) { uint64_t now = seam::signal_dispositions(); if (now != rs.sig0) { rs.rep->probes["signal_dispositions_changed_sequentially"]++; rs.sig0 = now; } }
+	}
 	drain_tsan(i);
+	t_cur_ctx = nullptr;
 	if (skipped) rs.rep->probes["op_skipped_missing_object"]++;
 	else ++rs.rep->ops_executed;
 	rt::g_log.ev("op", task, i, (uint64_t)o.kind, (uint64_t)res.returned_null | ((uint64_t)skipped << 1), res.has_digest ? rt::fnv64(res.digest, 32) : 0);
@@ -582,6 +620,7 @@ Report execute(const Plan &plan_in, const Options &opt) {
 	rt::sched_configure(sc);
 	seam::set_warmup(opt.run_index == ~(uint64_t)0);
 	seam::run_begin(plan.heap_seed);
+	rs.sig0 = seam::signal_dispositions();
 
 	// group ops by phase
 	size_t pos = 0;
@@ -613,6 +652,12 @@ Report execute(const Plan &plan_in, const Options &opt) {
 					viol("ASM_GLOBAL_RACE", sg, "tasks=" + std::to_string(g.tasks), (int)pos);
 				}
 				rep.probes["asm_global_writes_seen"] = seen;
+			}
+			{
+				// process-wide state the calls of the phase had to save and restore (signal dispositions): every call alone
+				// leaves it unchanged (checked above for calls that ran alone), so after any interleaving it must be unchanged
+				uint64_t now = seam::signal_dispositions();
+				if (now != rs.sig0) { viol("PROCESS_STATE_RACE", "signal dispositions after the concurrent phase differ from those before it (a save/install/restore sequence of the library was interleaved)", "", (int)pos); rs.sig0 = now; }
 			}
 			rs.in_concurrent = false;
 		}
